@@ -1,4 +1,5 @@
 import IceModel.Gen.ErrFlow
+import IceModel.Lemmas.ErrFlowCheck
 /-
   Bridge: error flow of every function that returns an error (C12, C19).
 
@@ -8,25 +9,13 @@ import IceModel.Gen.ErrFlow
   the error (`{ F R err }`), or returned directly (`F R err`).  The lists of exceptions are pinned:
   a change that lets an error escape its check (a `break` in front of it, an overwritten `err`, a
   dropped result) adds an entry, whatever the surrounding code looks like.
+
+  `Ev`, `unchecked`, `dropped` live in `Lemmas/ErrFlowCheck.lean` (no dependence on the generated facts);
+  this module holds the WHOLE-PACKAGE pinned lists; the per-area ones are in `Props/ErrFlowWrite.lean`,
+  `Props/ErrFlowRead.lean`, `Props/ErrFlowPersist.lean`.
 -/
 namespace Ice.Bridge.ErrFlow
 open Ice.Gen
-
-abbrev Ev := String × String
-
-/-- callees of the fallible calls that are not checked at once -/
-def unchecked : List Ev → List String
-  | [] => []
-  | e :: rest =>
-    if e.1 = "F" then
-      match rest with
-      | ("R", "err") :: _ => unchecked rest
-      | ("{", "err") :: ("R", "err") :: ("}", _) :: _ => unchecked rest
-      | ("{", "err") :: ("F", _) :: ("R", "err") :: ("}", _) :: _ => unchecked rest
-      | _ => e.2 :: unchecked rest
-    else unchecked rest
-
-def dropped (l : List Ev) : List String := (l.filter (fun e => e.1 = "D")).map (·.2)
 
 def allUnchecked : List (String × String) :=
   ErrFlow.flows.flatMap (fun f => (unchecked f.2).map (fun c => (f.1, c)))
